@@ -110,9 +110,10 @@ pub fn busy_event(m: &Model, rng: &mut Rng, ncols: usize, nt: usize, per: usize)
             w.insert((col * 8 + 8 + k) % 256, vec![0.0; len]);
         }
     }
-    let row_base = 20 + rng.usize(400);
     for c in 0..ncols {
         let col = (c0 + c) % 32;
+        // every column has its clusters on rows of its own
+        let row_base = 20 + rng.usize(400);
         for j in 0..nt {
             let t = 10 + 12 * j;
             let mut ws: Vec<usize> = (0..8).collect();
